@@ -215,6 +215,9 @@ def build(protocol, config, mtype, flags, seq, ser, payload, anns, corr, comp, l
 def run_case(protocol, socketutil, config, errors, case, idx, rng):
     T, F, S_, R = [1, 2, 3, 4, 5, 6, 0, 255], [0, 1, 4, 24, 32, 65408, 2, 64, 65535], [0, 1, 255, 256, 65535], [0, 1, 4, 42, 255]
     fam = case["fam"]
+    # both ways of reading are used in turn: asking for everything at once (MSG_WAITALL; the socket may still hand out less, as
+    # one with a timeout does) and the plain loop
+    socketutil.USE_MSG_WAITALL = bool((idx // 2) % 2)
     out = {"case": case, "encoded": False, "fields_ok": True, "reenc_ok": True, "sender": "n/a"}
     if fam in ("msg", "hdr"):
         if fam == "msg":
